@@ -11,11 +11,33 @@ Open Scope Z_scope.
    broker can move any more (accept loop returned or waiting, every handler returned or waiting on a
    connection nobody closed, closer returned or blocked), then Close HAS returned, the listener is
    closed, every connection that reached the broker is closed, every MQTT 5 client that had been
-   told it was connected was sent DISCONNECT 0x8B, and no handler is alive.  Full strength. *)
-Theorem C36_all_closed : forall (vers : list N) (sched : list tid),
+   told it was connected was sent DISCONNECT 0x8B, and no handler is alive.
+   This is FALSE of the faithful model of the current code in one window (KNOWN_FINDINGS.json:
+   KF_C36_silent_connection): a connection whose handler has run ClientsWg.Add and waits in
+   readConnectionPacket for a CONNECT that the client has not sent is not in Clients, so Close does
+   not close it and blocks in ClientsWg.Wait until that client speaks or goes away.  Outside
+   exactly that predicate (evaluated on the final state) the statement is proved. *)
+Theorem C36_all_closed_modulo_findings : forall (vers : list N) (sched : list tid),
+  KF_C36_silent_connection vers sched = false ->
   close_called (final vers sched) = true -> quiescent (final vers sched) = true ->
   shutdown_complete (final vers sched) = true.
 Proof. exact shutdown_all_closed. Qed.
+
+(* refutation: dial without sending CONNECT, accept, spawn, handler runs ClientsWg.Add and waits;
+   Close: end, snapshot, disconnect, close listener, Wait blocks.  Nothing can move. *)
+Definition silent_client : list tid := [1; 2; 1; 1; 1; 3; 0; 0; 0; 0; 1; 0; 0]%nat.
+
+Theorem C36_all_closed_refuted : exists vers sched,
+  close_called (final vers sched) = true /\ quiescent (final vers sched) = true /\
+  shutdown_complete (final vers sched) = false /\ KF_C36_silent_connection vers sched = true.
+Proof. exists [5%N], silent_client. vm_compute. repeat split. Qed.
+
+(* ... and as soon as that client sends its CONNECT it is refused, the handler returns, Close returns *)
+Example C36_silent_client_speaks :
+  let s := final [5%N] (silent_client ++ [2; 3; 3; 3; 0]%nat) in
+  quiescent s = true /\ shutdown_complete s = true /\
+  map (fun c => (c_phase c, c_connack c, c_closed c)) (s_conns s) = [(PDone, false, true)].
+Proof. vm_compute. repeat split. Qed.
 
 (* The listener stops accepting: after Close has returned a new connection attempt is refused, and
    from the moment Close has started the accept loop hands no connection to a handler any more. *)
@@ -44,7 +66,7 @@ Proof. exact shutdown_waits. Qed.
 
 (* refutation: dial, accept, spawn (handler not started); Close runs to completion; then the handler
    runs ClientsWg.Add — Close has returned while a handler is alive *)
-Definition unstarted : list tid := [1; 2; 1; 1; 1; 0; 0; 0; 0; 1; 0; 0; 3]%nat.
+Definition unstarted : list tid := [1; 2; 2; 1; 1; 1; 0; 0; 0; 0; 1; 0; 0; 3]%nat.
 
 Theorem C36_waits_refuted : exists vers sched,
   returned (final vers sched) = true /\ no_live_handler (final vers sched) = false /\
@@ -59,25 +81,26 @@ Proof. exact Findings.FixedC36.C36_refuted_prefix. Qed.
 
 (* non-vacuity: two connections (MQTT 5 and 3.1.1) fully attached, then Close: both are in the
    snapshot, get DISCONNECT, their handlers tear down, Wait returns, Close returns.
-   tids: 0 closer, 1 accept loop, 2/3 clients, 4/5 handlers *)
+   tids: 0 closer, 1 accept loop, 2/3 clients, 4/5 handlers, 6/7 clients going away *)
 Definition orderly : list tid :=
-  [1; 2; 1; 1; 1; 3; 1; 1; 1; 4; 4; 4; 5; 5; 5; 0; 0; 0; 0; 1; 0; 4; 5; 0]%nat.
+  [1; 2; 2; 1; 1; 1; 3; 3; 1; 1; 1; 4; 4; 4; 4; 5; 5; 5; 5; 0; 0; 0; 0; 1; 0; 4; 5; 0]%nat.
 
 Example C36_nonvacuous :
   let s := final [5%N; 4%N] orderly in
   close_called s = true /\ quiescent s = true /\ shutdown_complete s = true /\
-  KF_C36_unstarted_handler [5%N; 4%N] orderly = false /\
+  KF_C36_unstarted_handler [5%N; 4%N] orderly = false /\ KF_C36_silent_connection [5%N; 4%N] orderly = false /\
   map (fun c => (c_phase c, c_connack c, c_disc c, c_closed c)) (s_conns s) =
     [(PDone, true, true, true); (PDone, true, true, true)].
 Proof. vm_compute. repeat split. Qed.
 
 (* ... and a state that is not yet quiescent: before the handlers have torn down Close is blocked *)
 Example C36_blocked_until_handlers_finish :
-  let s := final [5%N; 4%N] (firstn 22 orderly) in
+  let s := final [5%N; 4%N] (firstn 26 orderly) in
   returned s = false /\ quiescent s = false /\ s_wg s = 1.
 Proof. vm_compute. repeat split. Qed.
 
-Print Assumptions C36_all_closed.
+Print Assumptions C36_all_closed_modulo_findings.
+Print Assumptions C36_all_closed_refuted.
 Print Assumptions C36_stops_accepting.
 Print Assumptions C36_no_spawn_after_close.
 Print Assumptions C36_waits_modulo_findings.
